@@ -24,7 +24,7 @@ Theorem C08_reopen_equiv_autosave :
          (sk dflt : nat -> bool),
     (forall k, mf k = false -> succs k = []) ->
     forall (T : nat) (cfg : config) (h : list (op * orders)),
-      autosave cfg = true -> wf_history h ->
+      autosave cfg = true -> wf_history mf h ->
       let s := run N mf succs subj sk true true true cfg h store_empty in
       obs_equiv N succs dflt T (reopen N mf succs s) s /\ disk_valid s = true.
 Proof. exact reopen_equiv_autosave. Qed.
@@ -36,7 +36,7 @@ Theorem C08_reopen_equiv_saveindex :
          (sk dflt : nat -> bool),
     (forall k, mf k = false -> succs k = []) ->
     forall (T : nat) (cfg : config) (h : list (op * orders)) (o : orders),
-      wf_history h -> no_reopen h ->
+      wf_history mf h -> no_reopen h ->
       let s := run N mf succs subj sk true true true cfg (h ++ [(OSave, o)]) store_empty in
       obs_equiv N succs dflt T (reopen N mf succs s) s /\ disk_valid s = true.
 Proof. exact reopen_equiv_saveindex. Qed.
@@ -49,7 +49,7 @@ Theorem C08_reopen_equiv_saveindex_reopen :
          (sk dflt : nat -> bool),
     (forall k, mf k = false -> succs k = []) ->
     forall (T : nat) (cfg : config) (h : list (op * orders)) (o : orders),
-      wf_history h -> reopen_after_save true h ->
+      wf_history mf h -> reopen_after_save true h ->
       let s := run N mf succs subj sk true true true cfg (h ++ [(OSave, o)]) store_empty in
       obs_equiv N succs dflt T (reopen N mf succs s) s /\ disk_valid s = true.
 Proof. exact reopen_equiv_saveindex_general. Qed.
@@ -61,7 +61,7 @@ Print Assumptions C08_reopen_equiv_saveindex_reopen.
 Theorem C08_store_invariant :
   forall (N : nat) (mf : nat -> bool) (succs : nat -> list nat) (subj : nat -> option nat)
          (sk : nat -> bool) (cfg : config) (h : list (op * orders)),
-    wf_history h -> (autosave cfg = true \/ no_reopen h) ->
+    wf_history mf h -> (autosave cfg = true \/ no_reopen h) ->
     let s := run N mf succs subj sk true true true cfg h store_empty in
     (forall k, mf k = true -> In k (blobs s) -> lookup (RDig k) (r_index (res s)) <> None /\ In k (gr s)) /\
     (forall k, mf k = true -> In k (gr s) -> In k (blobs s)) /\
@@ -80,7 +80,7 @@ Print Assumptions C08_save_is_projection.
 Theorem C08_reopen_equiv_refuted_gc :
   exists (N : nat) (mf : nat -> bool) (succs : nat -> list nat) (subj : nat -> option nat)
          (sk dflt : nat -> bool) (cfg : config) (h : list (op * orders)),
-    autosave cfg = true /\ wf_history h /\
+    autosave cfg = true /\ wf_history mf h /\
     let s := run N mf succs subj sk false true true cfg h store_empty in
     obs_resolve_dig dflt (reopen N mf succs s) 0 <> obs_resolve_dig dflt s 0 /\ disk_valid s = false.
 Proof. exact refuted_gc_not_saved. Qed.
@@ -90,7 +90,7 @@ Print Assumptions C08_reopen_equiv_refuted_gc.
 Theorem C08_reopen_equiv_refuted_gc_digest_ref :
   exists (N : nat) (mf : nat -> bool) (succs : nat -> list nat) (subj : nat -> option nat)
          (sk dflt : nat -> bool) (cfg : config) (h : list (op * orders)),
-    autosave cfg = true /\ wf_history h /\ (forall k, mf k = false -> succs k = []) /\
+    autosave cfg = true /\ wf_history mf h /\ (forall k, mf k = false -> succs k = []) /\
     let s := run N mf succs subj sk true false true cfg h store_empty in
     obs_preds N succs (reopen N mf succs s) 0 <> obs_preds N succs s 0.
 Proof. exact refuted_gc_drops_digest_ref. Qed.
@@ -111,7 +111,7 @@ Print Assumptions C08_gc_hang_prefix.
 
 (* why tag names must not be digest strings of other nodes *)
 Theorem C08_inconsistent_reference_example :
-  exists h, ~ wf_history h /\
+  exists h, ~ wf_history (fun _ => true) h /\
     let s := run 2 (fun _ => true) (fun _ => []) (fun _ => None) (fun _ => true) true true true ex_cfg h store_empty in
     obs_resolve_dig (fun _ => false) (reopen 2 (fun _ => true) (fun _ => []) s) 1 <> obs_resolve_dig (fun _ => false) s 1.
 Proof. exact inconsistent_reference_example. Qed.
@@ -120,7 +120,7 @@ Print Assumptions C08_inconsistent_reference_example.
 (* the hypotheses are satisfiable: a concrete history with re-tags, annotations, a tagged
    blob, Untag, GC, Delete, read-write reopen and non-trivial map orders *)
 Example C08_hypotheses_satisfiable :
-  wf_history ex_hist /\ (forall k, ex_mf k = false -> ex_succs k = []) /\
+  wf_history ex_mf ex_hist /\ (forall k, ex_mf k = false -> ex_succs k = []) /\
   let s := run 3 ex_mf ex_succs (fun _ => None) (fun _ => true) true true true ex_cfg ex_hist store_empty in
   obs_tags 3 s = [0] /\ obs_resolve_tag s 0 = Some (mkDesc 1 2 (Some (RTag 0))) /\
   obs_preds 3 ex_succs s 1 = [2] /\ obs_preds 3 ex_succs s 0 = [1] /\
